@@ -1,6 +1,6 @@
 import Retro.Props.C02.Links
 import Retro.Props.C01.Persp
-import Retro.Props.C06
+import Retro.Props.C06.Pixel
 
 namespace Retro.Props.C02
 open Retro Retro.Clip Retro.Raster Retro.Render Retro.Lemmas.Clip Retro.Lemmas.Raster
